@@ -245,6 +245,50 @@ func (e *Engine) builtin(fr *frame, b *ssa.Builtin, args []Value, in ssa.Value) 
 		return Iface{}
 	case "print", "println":
 		return nil
+	case "String": // unsafe.String(ptr, len)
+		n := e.concretize(args[1].(Term), 0, 1<<20)
+		if n == 0 {
+			return ""
+		}
+		ref, ok := e.elemOf[args[0].(*Value)]
+		if !ok || ref.i+n > len(ref.arr) {
+			unsupported("unsafe.String of untracked pointer")
+		}
+		bs := make([]Term, n)
+		for i := range bs {
+			bs[i] = ref.arr[ref.i+i].(Term)
+		}
+		return mkStr(bs)
+	case "StringData": // unsafe.StringData(s)
+		bs := strBytes(args[0])
+		if len(bs) == 0 {
+			return (*Value)(nil)
+		}
+		arr := make([]Value, len(bs))
+		for i := range bs {
+			arr[i] = bs[i]
+		}
+		e.elemOf[&arr[0]] = elemRef{arr, 0}
+		return &arr[0]
+	case "Slice": // unsafe.Slice(ptr, len)
+		n := e.concretize(args[1].(Term), 0, 1<<20)
+		p := args[0].(*Value)
+		if p == nil {
+			return Slice{}
+		}
+		ref, ok := e.elemOf[p]
+		if !ok || ref.i+n > len(ref.arr) {
+			unsupported("unsafe.Slice of untracked pointer")
+		}
+		return Slice{ref.arr[ref.i : ref.i+n : ref.i+n]}
+	case "SliceData":
+		sl := args[0].(Slice)
+		if cap(sl.a) == 0 {
+			return (*Value)(nil)
+		}
+		a := sl.a[:cap(sl.a)]
+		e.elemOf[&a[0]] = elemRef{a, 0}
+		return &a[0]
 	case "min", "max":
 		unsupported("min/max")
 	}
